@@ -966,3 +966,81 @@ def iter_configs(rng, thorough, classes=None, per_class=None, on_error="skip"):
                     yield name, c, e
                 continue
             yield name, c, op
+
+
+# --------------------------------------------------------------------------
+# random configurations beyond the enumerated grid (thorough-tier search of C04)
+
+
+def random_configs(rng, n_per_class=12):
+    """yield (class_name, config) with randomly drawn parameters (continuous ones included) for the classes whose
+    parameter space the grid can only sample: propagators, X-ray geometries, index expressions, pad widths, circular
+    convolution shapes / centres.  Deterministic for a given rng state."""
+
+    def rslice(n):
+        def v():
+            return None if rng.random() < 0.3 else int(rng.integers(-n - 2, n + 3))
+
+        st = None if rng.random() < 0.4 else int(rng.choice([1, 2, 3, -1, -2, -3]))
+        return slice(v(), v(), st)
+
+    for _ in range(n_per_class):
+        nd = int(rng.integers(1, 3))
+        shape = [int(rng.integers(1, 24)) for _ in range(nd)] if nd == 1 else [int(rng.integers(1, 7)) for _ in range(nd)]
+        dx = round(float(rng.uniform(0.05, 3.0)), 2) if rng.random() < 0.5 else [round(float(rng.uniform(0.05, 3.0)), 2) for _ in range(nd)]
+        c = {"shape": shape, "dx": dx, "k0": round(float(rng.uniform(0.2, 10.0)), 2), "z": round(float(rng.uniform(0.05, 5.0)), 2)}
+        yield "FraunhoferPropagator", dict(c)
+        yield str(rng.choice(["AngularSpectrumPropagator", "FresnelPropagator"])), dict(c, pad_factor=1)
+    for _ in range(n_per_class):
+        shape = [int(rng.integers(1, 6)), int(rng.integers(1, 6))]
+        dx = None if rng.random() < 0.3 else (float(rng.choice([1.0, 0.5])) if rng.random() < 0.5 else [round(float(rng.uniform(0.2, 0.7)), 3) for _ in range(2)])
+        yield "XRayTransform2D", {
+            "shape": shape, "angles": [round(float(rng.uniform(-7, 7)), 3) for _ in range(int(rng.integers(1, 3)))],
+            "det_count": None if rng.random() < 0.3 else int(rng.integers(1, 9)), "dx": dx,
+            "x0": None if rng.random() < 0.5 else [round(float(rng.uniform(-4, 2)), 3) for _ in range(2)],
+            "y0": None if rng.random() < 0.5 else round(float(rng.uniform(-6, 1)), 3),
+        }
+    for _ in range(n_per_class):
+        seq = str(rng.choice(["X", "Y", "Z", "XY", "ZX", "XYZ"]))
+        yield "XRayTransform3D", {
+            "shape": [int(rng.integers(1, 4)) for _ in range(3)], "det_shape": [int(rng.integers(1, 6)), int(rng.integers(1, 6))], "seq": seq,
+            "angles": [[round(float(rng.uniform(-3, 3)), 3) for _ in seq] for _ in range(int(rng.integers(1, 3)))],
+            "voxel_spacing": None if rng.random() < 0.5 else [float(rng.choice([0.5, 1.0, 0.75, 0.25])) for _ in range(3)],
+            "det_spacing": None if rng.random() < 0.6 else [float(rng.choice([1.0, 2.0, 0.5])) for _ in range(2)],
+        }
+    for _ in range(2 * n_per_class):
+        nd = int(rng.integers(1, 4))
+        shape = [int(rng.integers(1, 5)) for _ in range(nd)]
+        idx = []
+        for a in range(nd):
+            r = rng.random()
+            idx.append(rslice(shape[a]) if r < 0.6 else (int(rng.integers(-shape[a], shape[a])) if r < 0.8 else slice(None)))
+        if rng.random() < 0.3 and nd > 1:
+            k = int(rng.integers(0, nd))
+            idx = idx[:k] + [Ellipsis] + idx[k + 1 + int(rng.integers(0, nd - k)):]
+        if rng.random() < 0.3:
+            idx.insert(int(rng.integers(0, len(idx) + 1)), None)
+        if np.zeros(shape)[tuple(idx)].size == 0:
+            continue
+        yield "Slice", {"shape": shape, "idx": _idx_enc(tuple(idx)), "dtype": "float64"}
+    for _ in range(n_per_class):
+        nd = int(rng.integers(1, 3))
+        dims = [int(rng.integers(1, 6)) for _ in range(nd)]
+        ks = [int(rng.integers(1, 7)) for _ in range(nd)]
+        bx = [] if rng.random() < 0.6 else [int(rng.integers(1, 3))]
+        bh = [] if rng.random() < 0.6 else [int(rng.integers(1, 3))]
+        if bx and bh and bx[0] != bh[0] and 1 not in (bx[0], bh[0]):
+            bh = bx
+        cen = None if rng.random() < 0.3 else [float(rng.choice([0, 1, 2, -1, 0.5, 1.25, -0.75, 3])) for _ in range(nd)]
+        hc = bool(rng.random() < 0.2)
+        yield "CircularConvolve", {
+            "route": "init", "shape": bx + dims, "h": enc(_dy(rng, bh + ks, cplx=hc)), "ndims": nd if (bx or bh) else None, "h_center": cen,
+            "dtype": "complex128" if rng.random() < 0.2 else "float64", "h_is_dft": False,
+        }
+    for _ in range(n_per_class):
+        nd = int(rng.integers(1, 3))
+        shape = [int(rng.integers(1, 5)) for _ in range(nd)]
+        mode = str(rng.choice(["constant", "edge", "wrap", "reflect", "symmetric", "mean"]))
+        if mode == "reflect" and min(shape) < 2:
+            mode = "symmetric"
+        yield "Pad", {"shape": shape, "pad_width": [[int(rng.integers(0, 8)), int(rng.integers(0, 8))] for _ in range(nd)], "mode": mode, "dtype": "float64"}
